@@ -1070,10 +1070,10 @@ static PyObject* gbmv(PyObject *self, PyObject *args, PyObject *kwrds)
     if (ku < 0) err_nn_int("ku");
 
     if (ldA == 0) ldA = A->nrows;
-    if (ldA < kl+ku+1) err_ld("ldA");
+    if (ldA < (int_t)kl+ku+1) err_ld("ldA");
 
     if (oA < 0) err_nn_int("offsetA");
-    if (m>0 && n>0 && (int_t)oA + (n-1)*(int_t)ldA + kl + ku + 1 > len(A))
+    if (m>0 && n>0 && (int_t)oA + (n-1)*(int_t)ldA + (int_t)kl+ku + 1 > len(A))
         err_buf_len("A");
     if (ox < 0) err_nn_int("offsetx");
     if ((trans == 'N' && n > 0 && (int_t)ox + (n-1)*labs((long)ix) + 1 > len(x)) ||
@@ -1435,10 +1435,10 @@ static PyObject* sbmv(PyObject *self, PyObject *args, PyObject *kwrds)
 
     if (k < 0) k = MAX(0, A->nrows-1);
     if (ldA == 0) ldA = A->nrows;
-    if (ldA < 1+k) err_ld("ldA");
+    if (ldA < 1+(int_t)k) err_ld("ldA");
 
     if (oA < 0) err_nn_int("offsetA");
-    if ((int_t)oA + (n-1)*(int_t)ldA + k+1 > len(A)) err_buf_len("A");
+    if ((int_t)oA + (n-1)*(int_t)ldA + (int_t)k+1 > len(A)) err_buf_len("A");
     if (ox < 0) err_nn_int("offsetx");
     if ((int_t)ox + (n-1)*labs((long)ix) + 1 > len(x)) err_buf_len("x");
     if (oy < 0) err_nn_int("offsety");
@@ -1538,10 +1538,10 @@ static PyObject* hbmv(PyObject *self, PyObject *args, PyObject *kwrds)
 
     if (k < 0) k = MAX(0, A->nrows-1);
     if (ldA == 0) ldA = A->nrows;
-    if (ldA < 1+k) err_ld("ldA");
+    if (ldA < 1+(int_t)k) err_ld("ldA");
 
     if (oA < 0) err_nn_int("offsetA");
-    if ((int_t)oA + (n-1)*(int_t)ldA + k+1 > len(A)) err_buf_len("A");
+    if ((int_t)oA + (n-1)*(int_t)ldA + (int_t)k+1 > len(A)) err_buf_len("A");
     if (ox < 0) err_nn_int("offsetx");
     if ((int_t)ox + (n-1)*labs((long)ix) + 1 > len(x)) err_buf_len("x");
     if (oy < 0) err_nn_int("offsety");
@@ -1750,10 +1750,10 @@ static PyObject* tbmv(PyObject *self, PyObject *args, PyObject *kwrds)
     if (k < 0) k = MAX(0,A->nrows-1);
 
     if (ldA == 0) ldA = A->nrows;
-    if (ldA < k+1)  err_ld("ldA");
+    if (ldA < (int_t)k+1)  err_ld("ldA");
 
     if (oA < 0) err_nn_int("offsetA");
-    if ((int_t)oA + (n-1)*(int_t)ldA + k + 1 > len(A)) err_buf_len("A");
+    if ((int_t)oA + (n-1)*(int_t)ldA + (int_t)k + 1 > len(A)) err_buf_len("A");
     if (ox < 0) err_nn_int("offsetx");
     if ((int_t)ox + (n-1)*labs((long)ix) + 1 > len(x)) err_buf_len("x");
 
@@ -1949,10 +1949,10 @@ static PyObject* tbsv(PyObject *self, PyObject *args, PyObject *kwrds)
     if (k < 0) k = MAX(0, A->nrows-1);
 
     if (ldA == 0) ldA = A->nrows;
-    if (ldA < k+1) err_ld("ldA");
+    if (ldA < (int_t)k+1) err_ld("ldA");
 
     if (oA < 0) err_nn_int("offsetA");
-    if ((int_t)oA + (n-1)*(int_t)ldA + k + 1 > len(A)) err_buf_len("A");
+    if ((int_t)oA + (n-1)*(int_t)ldA + (int_t)k + 1 > len(A)) err_buf_len("A");
     if (ox < 0) err_nn_int("offsetx");
     if ((int_t)ox + (n-1)*labs((long)ix) + 1 > len(x)) err_buf_len("x");
 
